@@ -1,6 +1,6 @@
 //! translator <target|all> [--repo /repo] [--out /verif/coq/gen] [--report-dir /verif/.cache/gen]
-//! Targets: config (KyroDbConfig::validate -> Config_gen.v).  Exit status: 0 ok, 2 fail-closed, 1 usage/io.
-use kvh_translator::{target_config, write_if_changed};
+//! Targets: config (KyroDbConfig::validate -> Config_gen.v), search_k (hnsw_backend::compute_search_k -> SearchK_gen.v).  Exit status: 0 ok, 2 fail-closed, 1 usage/io.
+use kvh_translator::{target_config, target_search_k, write_if_changed};
 
 fn main() {
     let args: Vec<String> = std::env::args().collect();
@@ -21,7 +21,7 @@ fn main() {
     }
     let _ = std::fs::create_dir_all(&report_dir);
     let mut rc = 0;
-    let targets: Vec<&str> = if target == "all" { vec!["config"] } else { vec![target.as_str()] };
+    let targets: Vec<&str> = if target == "all" { vec!["config", "search_k"] } else { vec![target.as_str()] };
     for t in targets {
         match t {
             "config" => {
@@ -43,6 +43,28 @@ fn main() {
                     Err(v) => {
                         let _ = std::fs::write(&report_path, serde_json::to_string_pretty(&v).unwrap());
                         eprintln!("{}", target_config::fail_text(&v));
+                        rc = 2;
+                    }
+                }
+            }
+            "search_k" => {
+                let report_path = format!("{}/SearchK_gen.json", report_dir);
+                match target_search_k::run(&repo) {
+                    Ok(o) => {
+                        let changed = match write_if_changed(&format!("{}/SearchK_gen.v", out), &o.coq) {
+                            Ok(c) => c,
+                            Err(e) => { eprintln!("translator: cannot write SearchK_gen.v: {}", e); std::process::exit(1) }
+                        };
+                        let _ = std::fs::write(&report_path, serde_json::to_string_pretty(&o.report).unwrap());
+                        println!(
+                            "translator: search_k ok: compute_search_k at line {}, float site at line {}, SearchK_gen.v {}",
+                            o.report["fn_line"], o.report["float_site_line"],
+                            if changed { "rewritten" } else { "unchanged" }
+                        );
+                    }
+                    Err(v) => {
+                        let _ = std::fs::write(&report_path, serde_json::to_string_pretty(&v).unwrap());
+                        eprintln!("{}", target_search_k::fail_text(&v));
                         rc = 2;
                     }
                 }
